@@ -160,26 +160,50 @@ pub trait AsyncWrite: Sized {
     spec fn cur(&self) -> Seq<u8>;
     #[verifier::prophetic]
     spec fn end(&self) -> Seq<u8>;
+    // number of bytes this object has accepted since it was made (for a counting wrapper: its counter)
+    spec fn accepted(&self) -> nat;
+    #[verifier::prophetic]
+    spec fn end_accepted(&self) -> nat;
+    // frame: for a handle `&mut T`, the referent's own prophecy `end()` (no operation changes it; this
+    // is what rules out a callee re-seating a reference held inside a wrapper it was lent)
+    #[verifier::prophetic]
+    spec fn deep(&self) -> Seq<u8>;
+    #[verifier::prophetic]
+    spec fn end_deep(&self) -> Seq<u8>;
     proof fn resolved(&self)
         requires has_resolved(*self)
-        ensures self.cur() == self.end();
+        ensures self.cur() == self.end(), self.accepted() == self.end_accepted(), self.deep() == self.end_deep();
     fn write_all(&mut self, buf: &[u8]) -> (r: Result<(), std::io::Error>)
         ensures
             (*final(self)).end() == (*old(self)).end(),
+            (*final(self)).end_accepted() == (*old(self)).end_accepted(),
+            (*final(self)).deep() == (*old(self)).deep(), (*final(self)).end_deep() == (*old(self)).end_deep(),
+            (*final(self)).accepted() - (*old(self)).accepted() == (*final(self)).cur().len() - (*old(self)).cur().len(),
             match r {
                 Ok(()) => (*final(self)).cur() == (*old(self)).cur() + buf@,
                 Err(_) => (*old(self)).cur().is_prefix_of((*final(self)).cur())
                           && (*final(self)).cur().is_prefix_of((*old(self)).cur() + buf@),
             };
     fn flush(&mut self) -> (r: Result<(), std::io::Error>)
-        ensures (*final(self)).end() == (*old(self)).end(), (*final(self)).cur() == (*old(self)).cur();
+        ensures (*final(self)).end() == (*old(self)).end(), (*final(self)).cur() == (*old(self)).cur(),
+            (*final(self)).end_accepted() == (*old(self)).end_accepted(), (*final(self)).accepted() == (*old(self)).accepted(),
+            (*final(self)).deep() == (*old(self)).deep(), (*final(self)).end_deep() == (*old(self)).end_deep();
     fn close(&mut self) -> (r: Result<(), std::io::Error>)
-        ensures (*final(self)).end() == (*old(self)).end(), (*final(self)).cur() == (*old(self)).cur();
+        ensures (*final(self)).end() == (*old(self)).end(), (*final(self)).cur() == (*old(self)).cur(),
+            (*final(self)).end_accepted() == (*old(self)).end_accepted(), (*final(self)).accepted() == (*old(self)).accepted(),
+            (*final(self)).deep() == (*old(self)).deep(), (*final(self)).end_deep() == (*old(self)).end_deep();
 }
 impl<T: AsyncWrite> AsyncWrite for &mut T {
     open spec fn cur(&self) -> Seq<u8> { (**self).cur() }
     #[verifier::prophetic]
     open spec fn end(&self) -> Seq<u8> { mut_ref_future(*self).cur() }
+    open spec fn accepted(&self) -> nat { (**self).accepted() }
+    #[verifier::prophetic]
+    open spec fn end_accepted(&self) -> nat { mut_ref_future(*self).accepted() }
+    #[verifier::prophetic]
+    open spec fn deep(&self) -> Seq<u8> { (**self).end() }
+    #[verifier::prophetic]
+    open spec fn end_deep(&self) -> Seq<u8> { mut_ref_future(*self).end() }
     proof fn resolved(&self) {}
     fn write_all(&mut self, buf: &[u8]) -> (r: Result<(), std::io::Error>) { (**self).write_all(buf) }
     fn flush(&mut self) -> (r: Result<(), std::io::Error>) { (**self).flush() }
@@ -187,8 +211,15 @@ impl<T: AsyncWrite> AsyncWrite for &mut T {
 }
 pub broadcast proof fn writer_resolved<W: AsyncWrite>(w: W)
     requires #[trigger] has_resolved(w)
-    ensures w.cur() == w.end()
+    ensures w.cur() == w.end(), w.accepted() == w.end_accepted(), w.deep() == w.end_deep()
 { w.resolved(); }
+// a writer handle is given up as the same object: only appended to, its counter in step with what
+// was appended, a wrapped reference not re-seated
+#[verifier::prophetic]
+pub open spec fn w_kept<W: AsyncWrite>(w: W) -> bool {
+    w.cur().is_prefix_of(w.end()) && w.end_deep() == w.deep()
+    && w.end_accepted() - w.accepted() == w.end().len() - w.cur().len()
+}
 
 pub proof fn lemma_prefix_trans(a: Seq<u8>, b: Seq<u8>, c: Seq<u8>)
     requires a.is_prefix_of(b), b.is_prefix_of(c)
